@@ -89,3 +89,24 @@ Example b_1000 : float_text_b [49; 48; 48; 48] = true /\ fst (printNonNegativeFl
 Proof. vm_compute. repeat split; reflexivity. Qed.
 Example b_999 : float_text_b [57; 57; 57] = true /\ fst (printNonNegativeFloat false 4651998512748167168 [57; 57; 57]) = [57; 57; 57] /\ fst (printNonNegativeFloat true 4651998512748167168 [57; 57; 57]) = [57; 57; 57].
 Proof. vm_compute. repeat split; reflexivity. Qed.
+
+From V Require Import C13.Token C13.ParseSpec C01.CommaTrace.
+(* a, (b, c) shaped tree: norm changes the tree, the trace semantics sees
+   reads, writes, a short circuit and the final store, identically *)
+Definition ex_comma : expr :=
+  EBin BComma (EBin BAssign (EId [97]) (ENum [53]))
+    (EBin BComma (EBin BAddAssign (EId [98]) (EId [97]))
+       (EBin BLogAnd (EId [98]) (EUn UPostInc (EId [97])))).
+Example ex_comma_norm_differs : norm ex_comma <> ex_comma.
+Proof. vm_compute. discriminate. Qed.
+Example ex_comma_trace :
+  trace_eval ex_comma ([], []) =
+  Some (Val 5, ([([97], 6); ([98], 5); ([97], 5)],
+                [Write [97] 5; Read [98] 0; Read [97] 5; Write [98] 5; Read [98] 5; Read [97] 5; Write [97] 6]))
+  /\ trace_eval (norm ex_comma) ([], []) = trace_eval ex_comma ([], []).
+Proof. vm_compute. split; reflexivity. Qed.
+(* an exception (division by zero) aborts: same on both sides *)
+Example ex_comma_fail :
+  let e := EBin BComma (EId [97]) (EBin BComma (EBin BDiv (ENum [49]) (ENum [48])) (EId [98])) in
+  trace_eval e ([], []) = None /\ trace_eval (norm e) ([], []) = None.
+Proof. vm_compute. split; reflexivity. Qed.
